@@ -121,10 +121,12 @@ Definition run_norm_tpl (tpl : sx) (ts td : ty) (v : val) : Z :=
   match vstart tpl [SRC; DSTN] m0, store_memory ts td m0 SRC DSTN with
   | RVal (_, s), Some mm =>
       let m := v_mem s in
-      if val_eqb (vyread td m DSTN) v && val_eqb (vyread td mm DSTN) v &&
-         list_eqb (mread m DSTN (Z.to_nat (vmem_size td))) (mread mm DSTN (Z.to_nat (vmem_size td))) &&
-         list_eqb (mread m (DSTN + vmem_size td) 64) (mread m0 (DSTN + vmem_size td) 64)
-      then 1 else 0
+      (* compare raw memory first (a wrong template may leave garbage lengths: never decode ITS memory) *)
+      if list_eqb (mread m DSTN (Z.to_nat (vmem_size td))) (mread mm DSTN (Z.to_nat (vmem_size td))) then
+        if list_eqb (mread m (DSTN + vmem_size td) 64) (mread m0 (DSTN + vmem_size td) 64) then
+          if val_eqb (vyread td mm DSTN) v then 1 else 0
+        else 0
+      else 0
   | RRevert, None => 1
   | RFuel, _ => -2
   | RStuck _, _ => -3
